@@ -13,7 +13,7 @@ pub fn def() -> PropDef {
     PropDef {
         info: PropInfo {
             id: "C09",
-            rule: "case = VM kind (no-data, raw, metadata, fixed-metadata with a generated pair of non-overlapping offsets from {0,8,16,0x40,0x50,4088,32752,100000,1 MiB} in either order / adjacent / far apart) x a sequence of 1-4 packets of lengths {0,1,7,8,9,64,1500,random} placed at different addresses x a generated schedule of (engine, packet) executions over interpreter, x86-64 JIT and Cranelift on the SAME VM object. Probe programs: r1 at entry; r10 at entry; byte stores/loads at [r10-1] and [r10-512]; ldabsb/ldindb of the first packet byte; for the fixed-metadata VM *(r1+data_off), and *(r1+end_off) - *(r1+data_off), each read by the program itself and, in load-free programs, by a registered helper that is handed r1; for raw / metadata VMs the word a helper reads at *(r1). Oracle from the real addresses: r1 = metadata buffer / packet / 0 as documented; the stack region is disjoint from packet and metadata; packet loads return packet bytes; fixed VM: start pointer == address of the first packet byte when the packet is non-empty and end - start == length always, on every execution of the schedule and identically on the three engines. Non-trivial = fixed-metadata case with a non-empty packet, or a second-or-later execution; distinct by hash of (kind, offsets, lengths, schedule).",
+            rule: "case = VM kind (no-data, raw, metadata, fixed-metadata with a generated pair of non-overlapping offsets from {0,8,16,0x40,0x50,4088,32752,100000,1 MiB} in either order / adjacent / far apart) x a sequence of 1-4 packets of lengths {0,1,7,8,9,64,1500,random} placed at different addresses x a generated schedule of (engine, packet) executions over interpreter, x86-64 JIT and Cranelift on the SAME VM object; for the fixed-metadata VM, in half of the cases, the probe is re-loaded half way through with set_program() and another pair of offsets (swapped / only the lower one moved / both moved). Probe programs: r1 at entry; r10 at entry; byte stores/loads at [r10-1] and [r10-512]; ldabsb/ldindb of the first packet byte; for the fixed-metadata VM *(r1+data_off), and *(r1+end_off) - *(r1+data_off), each read by the program itself and, in load-free programs, by a registered helper that is handed r1; for raw / metadata VMs the word a helper reads at *(r1). Oracle from the real addresses: r1 = metadata buffer / packet / 0 as documented; the stack region is disjoint from packet and metadata; packet loads return packet bytes; fixed VM: start pointer == address of the first packet byte when the packet is non-empty and end - start == length always, on every execution of the schedule and identically on the three engines. Non-trivial = fixed-metadata case with a non-empty packet, or a second-or-later execution; distinct by hash of (kind, offsets, lengths, schedule).",
             assumptions: &["for an empty packet only end - start == 0 is required of the fixed-metadata VM (DESIGN 6.2)", "out-of-stack accesses are covered by C02/C11, not here"],
         },
         run,
@@ -31,14 +31,34 @@ pub struct C9Case {
     mbuff_len: u8,
     /// (engine index, packet index) executions, in order
     schedule: Vec<(u8, u8)>,
+    /// fixed-metadata VM only, 0 = none: half way through the schedule the probe is re-loaded
+    /// with set_program() and another pair of offsets - 1: the two offsets swapped, 2: only the
+    /// lower one moved (same buffer size), 3: both moved
+    reload: u8,
+}
+
+/// The pair of offsets in force after the reload.
+fn reloaded_offsets(c: &C9Case) -> (u32, u32) {
+    let (d, e) = (c.data_off, c.end_off);
+    match c.reload % 4 {
+        1 => (e, d),
+        2 => {
+            // move the lower one to another slot below the higher one (or just above 0)
+            let (lo, hi) = (d.min(e), d.max(e));
+            let nlo = if lo >= 8 { lo - 8 } else if hi >= lo + 16 { lo + 8 } else { lo };
+            if d < e { (nlo, e) } else { (d, nlo) }
+        }
+        3 => (d + 24, e + 24),
+        _ => (d, e),
+    }
 }
 
 const OFFS: [u32; 9] = [0, 8, 16, 0x40, 0x50, 4088, 32752, 100_000, 1 << 20];
 
 fn case() -> impl Strategy<Value = C9Case> {
     let len = prop_oneof![4 => prop::sample::select(vec![0u16, 1, 7, 8, 9, 64, 1500]), 2 => 0u16..1501];
-    (0u8..4, 0usize..9, 0usize..9, prop::bool::weighted(0.3), prop::collection::vec((len, any::<u8>()), 1..5), 16u8..65, prop::collection::vec((0u8..3, any::<u8>()), 1..10))
-        .prop_map(|(kind, a, b, adjacent, pkts, mbuff_len, schedule)| {
+    (0u8..4, 0usize..9, 0usize..9, prop::bool::weighted(0.3), prop::collection::vec((len, any::<u8>()), 1..5), 16u8..65, prop::collection::vec((0u8..3, any::<u8>()), 1..10), prop_oneof![1 => Just(0u8), 1 => 1u8..4])
+        .prop_map(|(kind, a, b, adjacent, pkts, mbuff_len, schedule, reload)| {
             let data_off = OFFS[a];
             let mut end_off = OFFS[b];
             if adjacent {
@@ -49,7 +69,7 @@ fn case() -> impl Strategy<Value = C9Case> {
             }
             let n = pkts.len() as u8;
             let schedule = schedule.into_iter().map(|(e, p)| (e, p % n)).collect();
-            C9Case { kind, data_off, end_off, pkts, mbuff_len, schedule }
+            C9Case { kind, data_off, end_off, pkts, mbuff_len, schedule, reload }
         })
 }
 
@@ -125,6 +145,11 @@ fn ld_at(out: &mut Vec<Insn>, dst: u8, off: u32) {
 
 /// The probe programs of a case: (id, bytes).
 fn programs(c: &C9Case) -> Vec<(u8, Vec<u8>)> {
+    programs_with(c, c.data_off, c.end_off)
+}
+
+fn programs_with(c: &C9Case, data_off: u32, end_off: u32) -> Vec<(u8, Vec<u8>)> {
+    let c = &C9Case { data_off, end_off, ..c.clone() };
     let exit = Insn::new(EXIT, 0, 0, 0, 0);
     let mut v = Vec::new();
     v.push((0u8, encode_prog(&[Insn::new(alu_opc(true, ALU_MOV, true), 0, 1, 0, 0), exit])));
@@ -218,7 +243,21 @@ unsafe fn child(mem: &Mem9, c: &C9Case) {
         }
         let mut jit_ok = None;
         let mut cl_ok = None;
-        for (e, pi) in &c.schedule {
+        let reload_at = if matches!(kind, VmKind::Fixed { .. }) && c.reload % 4 != 0 && id >= 5 { Some(c.schedule.len() / 2) } else { None };
+        for (k, (e, pi)) in c.schedule.iter().enumerate() {
+            if reload_at == Some(k) {
+                let (d2, e2) = reloaded_offsets(c);
+                let p2: &'static [u8] = Box::leak(programs_with(c, d2, e2).into_iter().find(|(i, _)| *i == id).expect("probe").1.into_boxed_slice());
+                if let Err(e) = vm.set_program(p2, (d2 as usize, e2 as usize)) {
+                    let m = format!("set_program(probe {id}, offsets {d2:#x}/{e2:#x}) failed: {e}");
+                    sh.msg[..m.len().min(300)].copy_from_slice(&m.as_bytes()[..m.len().min(300)]);
+                    sh.msg_len = m.len().min(300) as u32;
+                    return;
+                }
+                // compiled code belongs to the old program
+                jit_ok = None;
+                cl_ok = None;
+            }
             let engine = ENGINES[*e as usize % 3];
             let (len, _) = c.pkts[*pi as usize];
             // packet loads on an empty packet are (rightly) errors / traps / unchecked: skip them
@@ -378,7 +417,7 @@ pub fn check(mem: &Mem9, c: &C9Case) -> Verdict {
 }
 
 fn to_json(c: &C9Case) -> Value {
-    json!({"kind": c.kind, "data_off": c.data_off, "end_off": c.end_off, "pkts": c.pkts, "mbuff_len": c.mbuff_len, "schedule": c.schedule})
+    json!({"kind": c.kind, "data_off": c.data_off, "end_off": c.end_off, "pkts": c.pkts, "mbuff_len": c.mbuff_len, "schedule": c.schedule, "reload": c.reload})
 }
 
 fn from_json(v: &Value) -> Option<C9Case> {
@@ -390,6 +429,7 @@ fn from_json(v: &Value) -> Option<C9Case> {
         pkts: pairs(&v["pkts"]).into_iter().map(|(a, b)| (a as u16, b as u8)).collect(),
         mbuff_len: v["mbuff_len"].as_u64()? as u8,
         schedule: pairs(&v["schedule"]).into_iter().map(|(a, b)| (a as u8, b as u8)).collect(),
+        reload: v["reload"].as_u64().unwrap_or(0) as u8,
     })
 }
 
